@@ -8,6 +8,7 @@ import TantivyModel.Proofs.Columnar.CompactColumnMain
 import TantivyModel.Proofs.Columnar.StackMissing
 import TantivyModel.Proofs.Columnar.Writer
 import TantivyModel.Proofs.Columnar.OptRankSelect
+import TantivyModel.Proofs.Columnar.DictMergeMain
 /-!
 # C08 — Fast fields return exactly the values that were indexed
 
@@ -524,6 +525,33 @@ example : read (mergeStacked [⟨2, some (encodeAs .full [[1], [2]])⟩,
     (mergeStacked [⟨2, some (encodeAs .full [[1], [2]])⟩,
       (⟨2, some (encodeAs .multivalued [[], [3, 4]])⟩ : MergeInput Nat)]).2
     = [[1], [2], [], [3, 4]] := by decide
+
+/-! ## merging the dictionaries of a Str / Bytes column: remapped term ordinals -/
+
+/-- `merge_dict_and_compute_term_ord_mapping` over the `TermMerger` k-way merge (`mergeDicts`), for any
+number of segment dictionaries (strictly increasing term lists; a segment without the column has the
+empty one) and any "a surviving row uses this ordinal" predicate: the merged dictionary is strictly
+increasing; every (segment, old ordinal) a surviving row uses is registered, and the new ordinal
+denotes in the merged dictionary exactly the term the old ordinal denoted in the segment's; hence
+new ordinals of any two registered terms compare like the terms themselves. -/
+theorem C08_dictionary_merge_remap (used : Nat → Nat → Bool) (ds : List (List Nat))
+    (hds : ∀ d ∈ ds, d.Pairwise (· < ·)) :
+    (mergeDicts used ds).merged.Pairwise (· < ·) ∧
+    (∀ s o, s < ds.length → o < (ds.getD s []).length → used s o = true →
+      ∃ n, remapOrd (mergeDicts used ds) s o = some n ∧
+        (mergeDicts used ds).merged[n]? = (ds.getD s [])[o]?) ∧
+    (∀ n n' a b : Nat, (mergeDicts used ds).merged[n]? = some a → (mergeDicts used ds).merged[n']? = some b →
+      (a < b ↔ n < n')) :=
+  ⟨(mergeDicts_spec used ds hds).1, fun s o hs ho hu => remapOrd_spec used ds hds s o hs ho hu,
+   fun n n' a b h1 h2 => sorted_idx_lt _ (mergeDicts_spec used ds hds).1 n n' a b h1 h2⟩
+
+-- three segments (one without the column): term 3 is shared, so both old ordinals map to new ordinal 2
+example : (mergeDicts (fun _ _ => true) [[1, 3, 5], [2, 3], []]).merged = [1, 2, 3, 5] := by decide
+example : remapOrd (mergeDicts (fun _ _ => true) [[1, 3, 5], [2, 3], []]) 1 1 = some 2 := by decide
+example : remapOrd (mergeDicts (fun _ _ => true) [[1, 3, 5], [2, 3], []]) 0 1 = some 2 := by decide
+-- no surviving row uses ordinal 0 of segment 0: term 1 is dropped and the later ordinals shift
+example : (mergeDicts (fun s o => !(s == 0 && o == 0)) [[1, 3, 5], [2, 3], []]).merged = [2, 3, 5] := by decide
+example : remapOrd (mergeDicts (fun s o => !(s == 0 && o == 0)) [[1, 3, 5], [2, 3], []]) 0 2 = some 2 := by decide
 
 /-! ## monotone mappings (functions extracted from common/src/lib.rs) -/
 
